@@ -167,6 +167,14 @@ func (e *c12Env) makeFunc(s c12Sig) interface{} {
 			parts = append(parts, e.describe(v))
 		}
 		e.received = strings.Join(parts, " | ")
+		// helpers may keep and modify the maps they are given (Truncate used
+		// to): write into every map received, so that a map shared between
+		// calls shows up as unsupplied keys in a later call
+		for _, v := range in {
+			if v.Kind() == reflect.Map && !v.IsNil() && v.Type().Key().Kind() == reflect.String && v.Type().Elem().Kind() == reflect.Interface {
+				v.SetMapIndex(reflect.ValueOf("_written_by_a_previous_call"), reflect.ValueOf(true))
+			}
+		}
 		errV := reflect.Zero(c12TErr)
 		if s.result == 3 || s.result == 5 {
 			errV = reflect.ValueOf(&e.sentinel).Elem()
